@@ -282,3 +282,33 @@ def calls_path(n, regex):
         d = n.get("def") or {}
         return bool(re.search(regex, d.get("rpath") or d.get("path") or ""))
     return False
+
+
+def pop_order(h, callee_regex):
+    """Stack machines pop the RIGHT operand first: for every `match (stack.pop(), stack.pop()) { (P1, P2) => .. callee(x, y, ..) }`
+    the call's first operand must be bound by P2 (second pop = left operand) and its second operand by P1, in every arm that
+    makes the call. Returns [(line, 'ok'|'swapped'|'unrelated')]."""
+    out = []
+    def popcall(z):
+        z = z if isinstance(z, dict) else {}
+        return z.get("k") == "mcall" and z.get("name") == "pop"
+    for m in find_all(h["body"], lambda z: z.get("k") == "match" and isinstance(z.get("scrut"), dict) and z["scrut"].get("k") == "tup" and len(z["scrut"]["es"]) == 2 and all(popcall(e) for e in z["scrut"]["es"])):
+        for arm in m["arms"]:
+            p = arm["pat"]
+            if p.get("k") != "tuple" or len(p["pats"]) != 2:
+                continue
+            first = {b["id"] for b in find_all(p["pats"][0], lambda z: z.get("k") == "bind")}
+            second = {b["id"] for b in find_all(p["pats"][1], lambda z: z.get("k") == "bind")}
+            for c in find_all(arm["body"], lambda z: calls_path(z, callee_regex)):
+                args = c.get("args", [])
+                if len(args) < 2:
+                    continue
+                a0l = bool(find_all(args[0], lambda z: is_lid(z, second))); a0r = bool(find_all(args[0], lambda z: is_lid(z, first)))
+                a1l = bool(find_all(args[1], lambda z: is_lid(z, second))); a1r = bool(find_all(args[1], lambda z: is_lid(z, first)))
+                if a0l and a1r and not a0r and not a1l:
+                    out.append((c["ln"], "ok"))
+                elif a0r and a1l and not a0l and not a1r:
+                    out.append((c["ln"], "swapped"))
+                else:
+                    out.append((c["ln"], "unrelated"))
+    return out
